@@ -56,18 +56,26 @@ AuxHashMap<A>* AuxHashMap<A>::deserialize(const void* bytes, size_t len,
   } else { // updatable
     lgArrInts = lgAuxArrInts;
   }
-  
+  // at most K exceptions, table at most 3/4 full: the table never exceeds 2K slots
+  if (lgArrInts > lgConfigK + 1) {
+    throw std::invalid_argument("Possible corruption: invalid aux hash map size: lgArrInts = " + std::to_string(lgArrInts));
+  }
+
   const uint32_t configKmask = (1 << lgConfigK) - 1;
 
+  typedef std::unique_ptr<AuxHashMap<A>, std::function<void(AuxHashMap<A>*)>> aux_hash_map_ptr;
+  aux_hash_map_ptr aux_ptr;
   AuxHashMap<A>* auxHashMap;
-  const uint32_t* auxPtr = static_cast<const uint32_t*>(bytes);
+  const uint8_t* auxPtr = static_cast<const uint8_t*>(bytes); // the image need not be 4-byte aligned
   if (srcCompact) {
-    if (len < auxCount * sizeof(int)) {
+    if (len < static_cast<size_t>(auxCount) * sizeof(int)) {
       throw std::out_of_range("Input array too small to hold AuxHashMap image");
     }
     auxHashMap = new (ahmAlloc(allocator).allocate(1)) AuxHashMap<A>(lgArrInts, lgConfigK, allocator);
+    aux_ptr = aux_hash_map_ptr(auxHashMap, make_deleter());
     for (uint32_t i = 0; i < auxCount; ++i) {
-      const uint32_t pair = auxPtr[i];
+      uint32_t pair;
+      std::memcpy(&pair, auxPtr + i * sizeof(uint32_t), sizeof(pair));
       const uint32_t slotNo = HllUtil<A>::getLow26(pair) & configKmask;
       const uint8_t value = HllUtil<A>::getValue(pair);
       auxHashMap->mustAdd(slotNo, value);
@@ -78,8 +86,10 @@ AuxHashMap<A>* AuxHashMap<A>::deserialize(const void* bytes, size_t len,
       throw std::out_of_range("Input array too small to hold AuxHashMap image");
     }
     auxHashMap = new (ahmAlloc(allocator).allocate(1)) AuxHashMap<A>(lgArrInts, lgConfigK, allocator);
+    aux_ptr = aux_hash_map_ptr(auxHashMap, make_deleter());
     for (uint32_t i = 0; i < itemsToRead; ++i) {
-      const uint32_t pair = auxPtr[i];
+      uint32_t pair;
+      std::memcpy(&pair, auxPtr + i * sizeof(uint32_t), sizeof(pair));
       if (pair == hll_constants::EMPTY) { continue; }
       const uint32_t slotNo = HllUtil<A>::getLow26(pair) & configKmask;
       const uint8_t value = HllUtil<A>::getValue(pair);
@@ -88,11 +98,10 @@ AuxHashMap<A>* AuxHashMap<A>::deserialize(const void* bytes, size_t len,
   }
 
   if (auxHashMap->getAuxCount() != auxCount) {
-    make_deleter()(auxHashMap);
     throw std::invalid_argument("Deserialized AuxHashMap has wrong number of entries");
   }
 
-  return auxHashMap;                                    
+  return aux_ptr.release();
 }
 
 template<typename A>
@@ -105,6 +114,10 @@ AuxHashMap<A>* AuxHashMap<A>::deserialize(std::istream& is, uint8_t lgConfigK,
   } else { // updatable
     lgArrInts = lgAuxArrInts;
   }
+  // at most K exceptions, table at most 3/4 full: the table never exceeds 2K slots
+  if (lgArrInts > lgConfigK + 1) {
+    throw std::invalid_argument("Possible corruption: invalid aux hash map size: lgArrInts = " + std::to_string(lgArrInts));
+  }
 
   AuxHashMap<A>* auxHashMap = new (ahmAlloc(allocator).allocate(1)) AuxHashMap<A>(lgArrInts, lgConfigK, allocator);
   typedef std::unique_ptr<AuxHashMap<A>, std::function<void(AuxHashMap<A>*)>> aux_hash_map_ptr;
@@ -115,6 +128,7 @@ AuxHashMap<A>* AuxHashMap<A>::deserialize(std::istream& is, uint8_t lgConfigK,
   if (srcCompact) {
     for (uint32_t i = 0; i < auxCount; ++i) {
       const auto pair = read<int>(is);
+      if (!is.good()) throw std::runtime_error("error reading from std::istream");
       uint32_t slotNo = HllUtil<A>::getLow26(pair) & configKmask;
       uint8_t value = HllUtil<A>::getValue(pair);
       auxHashMap->mustAdd(slotNo, value);
@@ -123,6 +137,7 @@ AuxHashMap<A>* AuxHashMap<A>::deserialize(std::istream& is, uint8_t lgConfigK,
     const uint32_t itemsToRead = 1 << lgAuxArrInts;
     for (uint32_t i = 0; i < itemsToRead; ++i) {
       const auto pair = read<int>(is);
+      if (!is.good()) throw std::runtime_error("error reading from std::istream");
       if (pair == hll_constants::EMPTY) { continue; }
       const uint32_t slotNo = HllUtil<A>::getLow26(pair) & configKmask;
       const uint8_t value = HllUtil<A>::getValue(pair);
@@ -131,7 +146,7 @@ AuxHashMap<A>* AuxHashMap<A>::deserialize(std::istream& is, uint8_t lgConfigK,
   }
 
   if (auxHashMap->getAuxCount() != auxCount) {
-    make_deleter()(auxHashMap);
+    // aux_ptr owns the map: no explicit delete here (it used to be destroyed twice)
     throw std::invalid_argument("Deserialized AuxHashMap has wrong number of entries");
   }
 
